@@ -27,6 +27,8 @@ TRUSTED = ['rustc MIR', 'Iterator::max_by_key returns None iff the iterator is e
 
 def run(ctx, rep):
     facts = ctx.facts()
+    rep.rule('E9.R11', 'Cob::stack drops an operand only when it is an identity cobordism (guards folded over a finite model of cobordisms)')
+    e9_relations.check_stack_shortcuts(facts, rep)
     rep.rule('E22', e22_choose.__doc__.strip().split('\n')[0])
     rep.rule('E7', e7_tables.__doc__.strip().split('\n')[0])
     rep.rule('E8.F2', 'global degree shift formula (-n_neg, n_pos - 2 n_neg) and its agreement with the Jones normalisation')
